@@ -11,7 +11,8 @@ from models import Some, NONE, Ok, Err, deref, as_list
 from natives_fs import PStr, text_of
 from reference import Reject
 
-FILES = {"F_ab": b"a\0./b/\0", "F_dash_nl": b"-n\0x\ny\0", "F_hole": b"a\0\0b\0", "F_empty": b"", "F_nofinal": b"a\0b", "F_onlynul": b"\0", "F_hole3": b"a\0\0b\0c\0"}
+FILES = {"F_ab": b"a\0./b/\0", "F_dash_nl": b"-n\0x\ny\0", "F_hole": b"a\0\0b\0", "F_empty": b"", "F_nofinal": b"a\0b", "F_onlynul": b"\0", "F_hole3": b"a\0\0b\0c\0",
+         "F_blank": b"a\0 \0\n\0\t \0"}       # names that consist of blanks / a newline only are names, not empty
 VOCAB = ["-files0-from"] + list(FILES) + ["F_missing", "a", ".", "-L", "--", "-print", "-quit", "!", "(", ")", "-bogus"]
 
 
